@@ -4,6 +4,7 @@ import (
 	"fmt"
 	"go/token"
 	"go/types"
+	"slices"
 
 	"golang.org/x/tools/go/ssa"
 
@@ -181,6 +182,7 @@ func errorMapOf(h *ssa.Function) map[string]string {
 func C13(c *Ctx) {
 	c.Note("equality of replayed and appended record sequences; behaviour for every cut position and segment size (only the classification and the framing arithmetic are decided)")
 	segmentNamesGroup(c, "K12.segment-name-codec")
+	walNoWrapGroup(c, "K12.length-and-segment-id-do-not-wrap")
 	const r1 = "K12.framing-constants"
 	c.Rule(r1, "EncodeRecord writes a 4-byte length, the type byte, the payload and a 4-byte CRC and returns length+8; every consumer that advances an offset by a record (replayFile, verifySegment, memTable.setBatch, openMemTable, AppendRecords' capacity estimate) uses the same overhead; EntryInfo.Length = len(payload)+1")
 	enc := c.Fn("wal", "EncodeRecord")
@@ -522,6 +524,7 @@ func C14(c *Ctx) {
 			}
 		}
 	}
+	unverifiedLengthGroup(c, "K6.unverified-length-bounded-by-position")
 	if fn := c.Fn("file", "SSTable.initTable"); fn != nil {
 		vc := need(c, r1, fn, false, "utils.VerifyChecksum", Named("utils.VerifyChecksum"), 1)
 		for i, u := range need(c, r1, fn, false, "proto.Unmarshal", Named("google.golang.org/protobuf/proto.Unmarshal"), 1) {
@@ -611,4 +614,207 @@ func hashedBuffers(c *Ctx, fn *ssa.Function, depth int) []hashWrite {
 		}
 	})
 	return out
+}
+
+// unverifiedLengthGroup (C14): the trailing checksum-length word of a data block is the one part
+// of the block its checksum does not cover.  A flipped bit there must end in an error, so the
+// subtraction that steps the read position back over the checksum must be unreachable whenever
+// the length exceeds what is left in front of the length word (comparing it with the length of
+// the whole block lets `pos - n` go negative and the slice expression panic).
+func unverifiedLengthGroup(c *Ctx, rule string) {
+	c.Rule(rule, "in table.loadBlock (or the helper that decodes the block trailer) every `pos - n` computed before the checksum verification, where n is a length word read from the block (kv.BytesToU32, block.chkLen), is unreachable when n > pos and reachable when n <= pos (order-sign evaluation): a corrupted length word yields an error, not a slice-bounds panic")
+	fn := c.Fn("lsm", "table.loadBlock")
+	if fn == nil {
+		return
+	}
+	isLen := func(v ssa.Value) bool {
+		v = Unwrap(v)
+		if call, ok := v.(*ssa.Call); ok && Named("kv.BytesToU32")(call.Common()) {
+			return true
+		}
+		return isFieldLoad(v, "lsm.block", "chkLen")
+	}
+	bodies := []*ssa.Function{fn}
+	for _, cs := range Calls(fn, false, func(*ssa.CallCommon) bool { return true }) {
+		if cal := cs.Common().StaticCallee(); cal != nil && cal.Blocks != nil && cal.Pkg == fn.Pkg && len(Calls(cal, false, Named("kv.BytesToU32"))) > 0 && !slices.Contains(bodies, cal) {
+			bodies = append(bodies, cal)
+		}
+	}
+	n := 0
+	for _, f := range bodies {
+		vc := verifySites(c, f, Named("utils.VerifyChecksum"), 2)
+		AllInstrs(f, false, func(in ssa.Instruction) {
+			bo, ok := in.(*ssa.BinOp)
+			if !ok || bo.Op != token.SUB || !isLen(bo.Y) {
+				return
+			}
+			// lengths read after a successful verification are covered by the checksum
+			if len(vc) > 0 && succOKq(f, vc, bo) {
+				return
+			}
+			n++
+			pos := Unwrap(bo.X)
+			role := func(v ssa.Value) string {
+				if Unwrap(v) == pos {
+					return "pos"
+				}
+				if isLen(v) {
+					return "n"
+				}
+				return ""
+			}
+			reach := map[int]bool{}
+			for _, sg := range []int{-1, 0, 1} {
+				signs := map[string]int{}
+				SetSign(signs, "n", "pos", sg)
+				env := &SignEnv{Role: role, Signs: signs, Depth: 1}
+				reach[sg] = env.Reaches(f, bo)
+			}
+			k := key(f, fmt.Sprintf("pos-len[%d]#unreachable-when-len>pos", n))
+			switch {
+			case reach[1]:
+				c.Fail(rule, k, bo.Pos(), 4, "the read position is stepped back by a length word the checksum does not cover although that length can exceed the position (it is not compared with the bytes left in front of it): a single flipped bit makes the position negative and the block read panics instead of returning an error")
+			case !reach[-1] || !reach[0]:
+				c.Fail(rule, k, bo.Pos(), 4, "a well-formed block (length word within the bytes in front of it) is rejected")
+			default:
+				c.Pass(rule, k, bo.Pos(), 4, "reached only when the length word fits in front of the read position (3 orderings evaluated)")
+			}
+		})
+	}
+	c.Floor(rule, n, 1, "position-minus-length steps on unverified length words")
+}
+
+// walNoWrapGroup (C13): the two 32-bit quantities of the log cannot wrap.  EncodeRecord writes
+// nothing for a record whose type+payload length exceeds the 32-bit length field, and a rotation
+// never moves from the last segment id to id 0.  Both are decided by order-sign evaluation of the
+// guards against the bound, whatever their spelling.
+func walNoWrapGroup(c *Ctx, rule string) {
+	c.Rule(rule, "wal.EncodeRecord performs no Write when len(payload)+1 exceeds math.MaxUint32 (the framed length would wrap and the rest of the segment become unreadable) and writes otherwise; wal.Manager.rotateLocked does not switch segments when the active id is math.MaxUint32 (the next id would wrap to 0 and be replayed first) and switches otherwise")
+	const maxU32 = int64(1)<<32 - 1
+	if fn := c.Fn("wal", "EncodeRecord"); fn != nil && len(fn.Params) == 3 {
+		payload := fn.Params[2]
+		isLenPayload := func(v ssa.Value) bool {
+			call, ok := Unwrap(v).(*ssa.Call)
+			if !ok {
+				return false
+			}
+			bi, ok := call.Call.Value.(*ssa.Builtin)
+			return ok && bi.Name() == "len" && len(call.Call.Args) == 1 && Unwrap(call.Call.Args[0]) == payload
+		}
+		// total = len(payload) + 1
+		isTotal := func(v ssa.Value) bool {
+			bo, ok := Unwrap(v).(*ssa.BinOp)
+			if !ok || bo.Op != token.ADD {
+				return false
+			}
+			if k, ok := ConstInt(bo.Y); ok && k == 1 && isLenPayload(bo.X) {
+				return true
+			}
+			k, ok := ConstInt(bo.X)
+			return ok && k == 1 && isLenPayload(bo.Y)
+		}
+		// a comparison of the total with a constant <= MaxUint32 (or of len(payload) with a
+		// constant <= MaxUint32-1) is the atom "len:max"; `x > c` rejects at least every wrap
+		classify := func(bo *ssa.BinOp) (string, bool, bool) {
+			side := func(a, b ssa.Value) bool {
+				k, ok := ConstInt(Unwrap(b))
+				if !ok || k < 1<<16 {
+					return false
+				}
+				return isTotal(a) && k <= maxU32 || isLenPayload(a) && k <= maxU32-1
+			}
+			if side(bo.X, bo.Y) {
+				return "len:max", false, true
+			}
+			if side(bo.Y, bo.X) {
+				return "len:max", true, true
+			}
+			return "", false, false
+		}
+		var writes []ssa.CallInstruction
+		for _, w := range Calls(fn, false, Named("(io.Writer).Write")) {
+			if w.Common().IsInvoke() && Unwrap(w.Common().Value) == fn.Params[0] {
+				writes = append(writes, w)
+			}
+		}
+		c.Floor(rule, len(writes), 1, "writes to the destination in EncodeRecord")
+		over, fits := false, true
+		for _, w := range writes {
+			if (&SignEnv{Classify: classify, Signs: map[string]int{"len:max": 1}, Depth: 1}).Reaches(fn, w.(ssa.Instruction)) {
+				over = true
+			}
+			for _, sg := range []int{-1, 0} {
+				if !(&SignEnv{Classify: classify, Signs: map[string]int{"len:max": sg}, Depth: 1}).Reaches(fn, w.(ssa.Instruction)) {
+					fits = false
+				}
+			}
+		}
+		k := key(fn, "write-unreachable-when-length-exceeds-32-bits")
+		switch {
+		case over:
+			c.Fail(rule, k, fn.Pos(), 3*len(writes)+1, "EncodeRecord writes a record whose type+payload length does not fit the 32-bit length field: the length wraps (0 for exactly 2^32 bytes), the returned size is wrong and replay fails with ErrEmptyRecord on that segment, losing every record behind it")
+		case !fits:
+			c.Fail(rule, k, fn.Pos(), 3*len(writes)+1, "EncodeRecord refuses a record whose length fits the 32-bit length field")
+		default:
+			c.Pass(rule, k, fn.Pos(), 3*len(writes)+1, "no write is reachable when the length exceeds the 32-bit field; every write is reachable otherwise (3 orderings x %d writes)", len(writes))
+		}
+	}
+	if fn := c.Fn("wal", "Manager.rotateLocked"); fn != nil {
+		isID := func(v ssa.Value) bool { return isFieldLoad(Unwrap(v), "wal.Manager", "activeID") }
+		isNext := func(v ssa.Value) bool {
+			bo, ok := Unwrap(v).(*ssa.BinOp)
+			if !ok || bo.Op != token.ADD {
+				return false
+			}
+			k, ok := ConstInt(bo.Y)
+			return ok && k == 1 && isID(bo.X)
+		}
+		role := func(v ssa.Value) string {
+			switch {
+			case isID(v):
+				return "id"
+			case isNext(v):
+				return "next"
+			}
+			if k, ok := ConstInt(Unwrap(v)); ok && k == maxU32 {
+				return "max"
+			}
+			return ""
+		}
+		sw := Calls(fn, false, Named("wal.(*Manager).switchSegmentLocked"))
+		c.Floor(rule, len(sw), 1, "segment switches in rotateLocked")
+		scen := func(atMax bool) map[string]int {
+			signs := map[string]int{}
+			if atMax {
+				SetSign(signs, "id", "max", 0)
+				SetSign(signs, "next", "0", 0)
+				SetSign(signs, "next", "id", -1)
+				SetSign(signs, "next", "max", -1)
+			} else {
+				SetSign(signs, "id", "max", -1)
+				SetSign(signs, "next", "0", 1)
+				SetSign(signs, "next", "id", 1)
+				SetSign(signs, "next", "max", -1)
+			}
+			return signs
+		}
+		wrap, normal := false, true
+		for _, s := range sw {
+			if (&SignEnv{Role: role, Signs: scen(true), Depth: 1}).Reaches(fn, s.(ssa.Instruction)) {
+				wrap = true
+			}
+			if !(&SignEnv{Role: role, Signs: scen(false), Depth: 1}).Reaches(fn, s.(ssa.Instruction)) {
+				normal = false
+			}
+		}
+		k := key(fn, "switch-unreachable-when-id-is-last")
+		switch {
+		case wrap:
+			c.Fail(rule, k, fn.Pos(), 2*len(sw)+1, "rotateLocked switches to activeID+1 also when activeID is math.MaxUint32: the id wraps to 0, replay orders the new segment before every existing one and a reopened log resumes the old segment")
+		case !normal:
+			c.Fail(rule, k, fn.Pos(), 2*len(sw)+1, "rotateLocked refuses to rotate although the next segment id exists")
+		default:
+			c.Pass(rule, k, fn.Pos(), 2*len(sw)+1, "no switch when the active id is the last one; the switch is reachable otherwise")
+		}
+	}
 }
